@@ -13,6 +13,9 @@ MODULES = {
     'C08': ['C08'], 'C09': ['C09'], 'C10': ['C10'], 'C11': ['C11'], 'C12': ['C12'], 'C13': ['C13'], 'C14': ['C14'],
     'C15': ['C15'], 'C16': ['C16', 'C16b'], 'C17': ['C17'], 'C18': ['C18'], 'C19': ['C19'], 'C20': ['C20'],
 }
+# properties whose proof files are finished and committed (others contribute only their table leaves)
+READY = {'C13', 'C14', 'C16', 'C19', 'C20'}
+
 AGREE = {
     'C02': ['Isotp.Agree.NearestFd', 'Isotp.Agree.PadLen'],
     'C05': ['Isotp.Agree.Pci'],
@@ -43,7 +46,7 @@ def main():
     for pid, mods in MODULES.items():
         ms, ths = [], []
         for m in mods:
-            t = theorems_of(m)
+            t = theorems_of(m) if pid in READY else None
             if t is None:
                 continue
             ms.append('Isotp.Props.' + m)
